@@ -130,6 +130,40 @@ def _param_names(ctx, node):
     return names - {'self', 'cls'}
 
 
+def _internal_callable_param(ctx, call, pname):
+    """The parameter `pname` called here belongs to a module-level helper (or to a function nested in one) that is only ever called,
+    within its module, with functions / classes of the repository or of libraries in that position - never with something a user
+    passed in: `_lenient(decimal.Decimal)`, `_lenient(_decode_date)`.  Such a callable is part of the library, not user-supplied."""
+    fi = ctx.repo.enclosing_func(call)
+    owner = None
+    while fi is not None:
+        if pname in fi.all_params:
+            owner = fi
+            break
+        fi = fi.parent if isinstance(fi.parent, FuncInfo) else None
+    if owner is None or owner.cls is not None or owner.parent is not None or isinstance(owner.node, ast.Lambda):
+        return False
+    pos = owner.all_params.index(pname)
+    sites = [c for c in ast.walk(owner.module.tree) if isinstance(c, ast.Call) and isinstance(c.func, ast.Name)
+             and c.func.id == owner.node.name]
+    if not sites:
+        return False
+    for c in sites:
+        arg = c.args[pos] if pos < len(c.args) else next((k.value for k in c.keywords if k.arg == pname), None)
+        if arg is None or not isinstance(arg, (ast.Name, ast.Attribute)):
+            return False
+        cf = ctx.repo.enclosing_func(c)
+        if cf is not None and isinstance(arg, ast.Name) and arg.id in _param_names(ctx, c):
+            return False
+        try:
+            r = ctx.res.resolve_expr_static(arg, owner.module, cf)
+        except Exception:
+            return False
+        if not (isinstance(r, (FuncInfo,)) or type(r).__name__ == 'ClassInfo' or (isinstance(r, tuple) and r and r[0] == 'external')):
+            return False
+    return True
+
+
 IO_ATTRS = {'put', 'write', 'flush', 'close', 'rename', 'writerow', 'write_row', 'send', 'join', 'kill', 'start'}
 
 
@@ -148,7 +182,7 @@ def body_is_simple(ctx, tr):
                         return False, 'iterates parameter %s' % pseudo(g.iter)
             if isinstance(n, ast.Call):
                 f = n.func
-                if isinstance(f, ast.Name) and f.id in params:
+                if isinstance(f, ast.Name) and f.id in params and not _internal_callable_param(ctx, n, f.id):
                     return False, 'calls user-supplied callable %s' % f.id
                 if isinstance(f, ast.Name) and f.id == 'next':
                     if not (n.args and isinstance(n.args[0], ast.Call) and isinstance(n.args[0].func, ast.Name)
@@ -205,6 +239,20 @@ def run_path_handlers(ctx):
             if isinstance(n, ast.Try):
                 for h in n.handlers:
                     out.append((m, n, h))
+            elif isinstance(n, (ast.With, ast.AsyncWith)):
+                # `with contextlib.suppress(T..):` is `try: ... except (T..): pass`
+                for it in n.items:
+                    c = it.context_expr
+                    if isinstance(c, ast.Call) and ctx.res.external_name(c) in ('contextlib.suppress', 'suppress'):
+                        typ = c.args[0] if len(c.args) == 1 else ast.Tuple(elts=list(c.args), ctx=ast.Load())
+                        h = ast.ExceptHandler(type=typ, name=None, body=[ast.Pass()])
+                        tr = ast.Try(body=n.body, handlers=[h], orelse=[], finalbody=[])
+                        for x in (h, tr, h.body[0]):
+                            ast.copy_location(x, n)
+                        h._parent = tr
+                        tr._parent = getattr(n, '_parent', None)
+                        h.body[0]._parent = h
+                        out.append((m, tr, h))
     return out
 
 
